@@ -7,8 +7,8 @@ from . import base
 ID = 'C06'
 LEVEL = 'exploration'
 PLAN = {
-    'quick': [('synth', 20000), ('resume', 4000), ('tracker', 160000), ('small_enum', smallenum.size(2) + 24000)],
-    'thorough': [('synth', 800000), ('resume', 150000), ('tracker', 8000000), ('small_enum', smallenum.size(3))],
+    'quick': [('synth', 20000), ('resume', 4000), ('tracker', 160000), ('small_enum', smallenum.size(2) + 24000), ('shipped', 480), ('shipped_cli', 160)],
+    'thorough': [('synth', 800000), ('resume', 150000), ('tracker', 8000000), ('small_enum', smallenum.size(3)), ('shipped', 20000), ('shipped_cli', 6000)],
 }
 DEADLINE = {'quick': 200, 'thorough': 3300}
 PROBES = ['line-reattempted', 'refusal-with-waiters-outstanding', 'tracker-interleaved-drain',
@@ -181,6 +181,9 @@ make_case.tier = 'quick'
 
 
 def run_one(engine, seed, acc, tier):
+    if engine in ('shipped', 'shipped_cli'):
+        from . import shipped_props
+        return shipped_props.run_one(ID, seed, acc, tier, level='cli' if engine == 'shipped_cli' else None)
     make_case.tier = tier
     case = make_case(engine, seed)
     for f in evaluate(case, engine, acc):
@@ -188,6 +191,9 @@ def run_one(engine, seed, acc, tier):
 
 
 def replay(rec):
+    if rec.get('engine') in ('shipped', 'shipped_cli'):
+        from . import shipped_props
+        return shipped_props.replay(ID, rec)
     return evaluate(rec['case'], rec.get('engine'))
 
 
@@ -195,6 +201,8 @@ _min_synth = base.make_minimiser(lambda c, e: evaluate(c, e))
 
 
 def minimise(v):
+    if str(v.get('engine', '')).startswith('shipped'):
+        return v
     if v.get('engine') == 'tracker':
         oracle = v['oracle']
         small = trackersim.shrink_history(v['case'], lambda h: any(f['oracle'] == oracle for f in eval_tracker(h)))
